@@ -47,6 +47,7 @@ theorem inv_stepReq (s : St) (i : Nat) (h : Inv s) : Inv (stepReq s i) := by
   unfold stepReq
   cases hpc : (s.thr i).pc <;> simp only [hpc]
   case init => file_close
+  case gex => file_close
   case acq => split <;> first | file_close | exact ⟨r1, r2, w1, w2, o1, o2, v1, v2, e1, e2, l1⟩
   case openr => split <;> file_close
   case load => file_close
